@@ -163,10 +163,6 @@ class C03(Check):
         if tr.op not in self.pe_set:
             if tr.ooc or tr.rel is None or tr.val is None:
                 return False
-            # keep base trees clear of KF-PROCESSOR-SQL-MATERIALIZATION shapes (they are C07's business)
-            if findings.sql_materialization_over_changing_upstream(tr.rel):
-                tr.count("base_tree_excluded_sql_materialization_shape")
-                return False
             return True
         _, inner, pref, bt, do_tr, req = tr.op
         parent = tr.parent_rel
@@ -315,7 +311,6 @@ def run(tier, seed):
             "'with transfer=True the result lives in the preferred engine' is read with the documented rule that the transfer "
             "is only added when backtracking fails: the result must be in the preferred engine unless the operation was "
             "placed upstream in it",
-            "base trees avoid SQL materializations above unprocessed transfers (known finding of C07)",
         ],
     }
 
